@@ -1,6 +1,6 @@
 (* Proofs for C12: Prices.Insert (latest declaration wins, zero rejected, order independence)
    and the breadth-first Normalize (self, direct, chain, unreachable, totality). *)
-From Coq Require Import ZArith List Bool Lia Permutation.
+From Coq Require Import ZArith List Bool Lia Permutation Sorting.Sorted.
 From Knut Require Import Model.Str Model.Dec Model.Price Model.Journal Model.Ledger Model.Pipeline.
 From Knut Require Import Spec.PriceSpec Proofs.SMapProofs.
 Import ListNotations.
@@ -696,6 +696,210 @@ Proof.
     subst c. apply valuate_no_price with (np := np); try assumption.
     intros E. apply Hn. rewrite E. apply connected_refl.
 Qed.
+
+(* ================================================================ breadth-first = shortest chains *)
+Lemma visit_queue_app nb pc : forall res q res' q',
+  visit_neighbours nb pc res q = (res', q') ->
+  exists new, q' = q ++ new /\
+              forall n, In n new -> sm_has res n = false /\ sm_has res' n = true.
+Proof.
+  induction nb as [|[n p] nb IH]; intros res q res' q' H; cbn [visit_neighbours] in H.
+  - injection H as <- <-. exists []. split; [symmetry; apply app_nil_r | intros n []].
+  - destruct (sm_has res n) eqn:G.
+    + apply IH. exact H.
+    + destruct (IH _ _ _ _ H) as (new & -> & Hnew).
+      exists (n :: new). split; [rewrite <- app_assoc; reflexivity|].
+      intros m [<-|Hm].
+      * split; [exact G|]. eapply extends_has; [eapply visit_extends; exact H|].
+        rewrite sm_has_put, str_eqb_refl. reflexivity.
+      * destruct (Hnew m Hm) as [H1 H2]. split; [|exact H2].
+        rewrite sm_has_put in H1. apply orb_false_iff in H1. apply H1.
+Qed.
+
+Lemma StronglySorted_all {A} (R : A -> A -> Prop) l :
+  (forall a b, In a l -> In b l -> R a b) -> Sorted.StronglySorted R l.
+Proof.
+  induction l as [|a l IH]; intros H; constructor.
+  - apply IH. intros x y Hx Hy. apply H; right; assumption.
+  - apply Forall_forall. intros y Hy. apply H; [left; reflexivity | right; exact Hy].
+Qed.
+
+Lemma StronglySorted_app {A} (R : A -> A -> Prop) l1 l2 :
+  Sorted.StronglySorted R l1 -> Sorted.StronglySorted R l2 ->
+  (forall a b, In a l1 -> In b l2 -> R a b) -> Sorted.StronglySorted R (l1 ++ l2).
+Proof.
+  induction 1 as [|a l1 Hs IH Hall]; intros H2 Hx; cbn [app]; [exact H2|].
+  constructor.
+  - apply IH; [exact H2|]. intros x y Hx1 Hy. apply Hx; [right; exact Hx1 | exact Hy].
+  - apply Forall_forall. intros y Hy. apply in_app_or in Hy. destruct Hy as [Hy|Hy].
+    + rewrite Forall_forall in Hall. apply Hall. exact Hy.
+    + apply Hx; [left; reflexivity | exact Hy].
+Qed.
+
+Lemma StronglySorted_transport {A} (R R' : A -> A -> Prop) l :
+  Sorted.StronglySorted R l -> (forall a b, In a l -> In b l -> R a b -> R' a b) ->
+  Sorted.StronglySorted R' l.
+Proof.
+  induction 1 as [|a l Hs IH Hall]; intros H; constructor.
+  - apply IH. intros x y Hx Hy. apply H; right; assumption.
+  - rewrite Forall_forall in *. intros y Hy. apply H; [left; reflexivity | right; exact Hy | auto].
+Qed.
+
+Section BfsLevels.
+  Variable ps : prices.
+  Variable v : str.
+
+  (* lvl c = number of edges of the path by which c was reached *)
+  Definition linv (lvl : str -> nat) (q : list str) (res : nprices) : Prop :=
+    (forall c, In c q -> sm_has res c = true) /\
+    lvl v = O /\
+    (forall c x, sm_get res c = Some x ->
+       exists path, path_value ps v one path = Some x /\ last path v = c /\ NoDup (v :: path) /\
+                    (forall n, In n (v :: path) -> sm_has res n = true) /\ length path = lvl c) /\
+    Sorted.StronglySorted (fun a b => (lvl a <= lvl b)%nat) q /\
+    (forall h rest c, q = h :: rest -> sm_has res c = true -> (lvl c <= S (lvl h))%nat) /\
+    (forall u, sm_has res u = true -> ~ In u q -> forall n, stored ps u n <> None ->
+               sm_has res n = true /\ (lvl n <= S (lvl u))%nat).
+
+  Lemma linv_step lvl c rest res res' q' :
+    linv lvl (c :: rest) res ->
+    visit_neighbours (neighbours ps c) (match sm_get res c with Some p => p | None => one end) res rest
+    = (res', q') ->
+    linv (fun k => if sm_has res k then lvl k else S (lvl c)) q' res'.
+  Proof.
+    intros (I0 & L0 & L1 & L2 & L3 & L4) H.
+    pose proof (visit_extends _ _ _ _ _ _ H) as Hext.
+    destruct (visit_queue_app _ _ _ _ _ _ H) as (new & -> & Hnew).
+    assert (sm_has res c = true) as Hc by (apply I0; left; reflexivity).
+    pose proof Hc as Hc'. unfold sm_has in Hc'.
+    destruct (sm_get res c) as [pc|] eqn:Gc; [clear Hc' | discriminate].
+    set (lvl' := fun k => if sm_has res k then lvl k else S (lvl c)).
+    assert (forall k, sm_has res k = true -> lvl' k = lvl k) as Lold.
+    { intros k Hk. unfold lvl'. rewrite Hk. reflexivity. }
+    assert (forall k, sm_has res k = false -> lvl' k = S (lvl c)) as Lnew.
+    { intros k Hk. unfold lvl'. rewrite Hk. reflexivity. }
+    assert (forall k, sm_has res' k = true -> (lvl' k <= S (lvl c))%nat) as Lle.
+    { intros k _. destruct (sm_has res k) eqn:Hk.
+      - rewrite (Lold _ Hk). apply (L3 c rest k eq_refl Hk).
+      - rewrite (Lnew _ Hk). apply le_n. }
+    assert (forall k, In k rest -> sm_has res k = true) as Hrest.
+    { intros k Hk. apply I0. right. exact Hk. }
+    inversion L2 as [|? ? L2rest L2all]; subst. rewrite Forall_forall in L2all.
+    assert (forall h, In h (rest ++ new) -> (lvl c <= lvl' h)%nat) as Lhead.
+    { intros h Hh. apply in_app_or in Hh. destruct Hh as [Hh|Hh].
+      - rewrite (Lold _ (Hrest _ Hh)). apply L2all. exact Hh.
+      - rewrite (Lnew _ (proj1 (Hnew _ Hh))). apply le_S, le_n. }
+    split; [|split; [|split; [|split; [|split]]]].
+    - intros k Hk. apply in_app_or in Hk. destruct Hk as [Hk|Hk].
+      + eapply extends_has; [exact Hext | auto].
+      + apply (Hnew _ Hk).
+    - destruct (L1 _ _ Gc) as (path & _ & _ & _ & P4 & _).
+      rewrite Lold; [exact L0|]. apply P4. left. reflexivity.
+    - intros k x G. rewrite (visit_get _ _ _ _ _ _ k H) in G.
+      destruct (sm_get res k) as [y|] eqn:Gk.
+      + injection G as <-. destruct (L1 _ _ Gk) as (path & P1 & P2 & P3 & P4 & P5).
+        exists path. repeat split; try assumption.
+        * intros n Hn. eapply extends_has; [exact Hext | auto].
+        * rewrite Lold; [exact P5|]. unfold sm_has. rewrite Gk. reflexivity.
+      + destruct (sm_get (neighbours ps c) k) as [p|] eqn:Gn; [|discriminate].
+        injection G as <-. destruct (L1 _ _ Gc) as (path & P1 & P2 & P3 & P4 & P5).
+        exists (path ++ [k]). split; [|split; [|split; [|split]]].
+        * rewrite path_value_app, P1, P2. cbn [path_value].
+          rewrite stored_neighbours, Gn. reflexivity.
+        * apply last_last.
+        * change (v :: path ++ [k]) with ((v :: path) ++ [k]). apply NoDup_snoc; [exact P3|].
+          intros Hin. apply P4 in Hin. unfold sm_has in Hin. rewrite Gk in Hin. discriminate.
+        * change (v :: path ++ [k]) with ((v :: path) ++ [k]). intros n Hn.
+          apply in_app_or in Hn. destruct Hn as [Hn|[<-|[]]].
+          -- eapply extends_has; [exact Hext | auto].
+          -- rewrite (visit_has _ _ _ _ _ _ k H). unfold sm_has at 2. rewrite Gn. apply orb_true_r.
+        * rewrite app_length, P5. cbn [length]. rewrite Lnew; [lia|].
+          unfold sm_has. rewrite Gk. reflexivity.
+    - apply StronglySorted_app.
+      + eapply StronglySorted_transport; [exact L2rest|].
+        intros a b Ha Hb Hab. rewrite (Lold _ (Hrest _ Ha)), (Lold _ (Hrest _ Hb)). exact Hab.
+      + apply StronglySorted_all. intros a b Ha Hb.
+        rewrite (Lnew _ (proj1 (Hnew _ Ha))), (Lnew _ (proj1 (Hnew _ Hb))). apply le_n.
+      + intros a b Ha Hb. rewrite (Lold _ (Hrest _ Ha)), (Lnew _ (proj1 (Hnew _ Hb))).
+        apply (L3 c rest a eq_refl (Hrest _ Ha)).
+    - intros h rest2 k Hq Hk.
+      assert (lvl c <= lvl' h)%nat as Hh by (apply Lhead; rewrite Hq; left; reflexivity).
+      specialize (Lle k Hk). lia.
+    - intros u Hu Hnq n Hn.
+      destruct (str_eq_dec u c) as [->|Hne].
+      + assert (sm_has res' n = true) as Hn'.
+        { rewrite (visit_has _ _ _ _ _ _ n H). rewrite stored_neighbours in Hn.
+          unfold sm_has at 2. destruct (sm_get (neighbours ps c) n); [apply orb_true_r | congruence]. }
+        split; [exact Hn'|]. rewrite (Lold _ Hc). apply Lle. exact Hn'.
+      + destruct (sm_has res u) eqn:Hru.
+        * assert (~ In u (c :: rest)) as Hnq'.
+          { intros [E|Hin]; [congruence|]. apply Hnq. apply in_or_app. left. exact Hin. }
+          destruct (L4 u Hru Hnq' n Hn) as [Hn1 Hn2]. split.
+          -- eapply extends_has; [exact Hext | exact Hn1].
+          -- rewrite (Lold _ Hn1), (Lold _ Hru). exact Hn2.
+        * exfalso. apply Hnq.
+          destruct (visit_queue _ _ _ _ _ _ H) as (_ & _ & Q3).
+          destruct (Q3 _ Hu) as [Hr|Hq]; [congruence | exact Hq].
+  Qed.
+
+  Lemma bfs_linv : forall fuel lvl q res np,
+    bfs fuel ps q res = Some np -> linv lvl q res -> exists lvl', linv lvl' [] np.
+  Proof.
+    induction fuel as [|f IH]; intros lvl q res np H Hinv.
+    - destruct q; [|discriminate]. injection H as <-. exists lvl. exact Hinv.
+    - destruct q as [|c rest].
+      + injection H as <-. exists lvl. exact Hinv.
+      + rewrite bfs_step in H.
+        destruct (visit_neighbours (neighbours ps c) _ res rest) as [res' q'] eqn:E.
+        eapply IH; [exact H|]. eapply linv_step; eassumption.
+  Qed.
+
+  Lemma linv_init : linv (fun _ => O) [v] [(v, one)].
+  Proof.
+    assert (forall k, sm_has [(v, one)] k = str_eqb k v) as Hh.
+    { intros k. unfold sm_has. cbn [sm_get]. destruct (str_eqb k v); reflexivity. }
+    split; [|split; [|split; [|split; [|split]]]].
+    - intros c [<-|[]]. rewrite Hh. apply str_eqb_refl.
+    - reflexivity.
+    - intros c x G. cbn [sm_get] in G. destruct (str_eqb c v) eqn:E; [|discriminate].
+      apply str_eqb_eq in E. subst c. injection G as <-.
+      exists []. repeat split; try reflexivity.
+      + constructor; [intros [] | constructor].
+      + intros n [<-|[]]. rewrite Hh. apply str_eqb_refl.
+    - constructor; constructor.
+    - intros h rest c _ _. apply le_S, le_n.
+    - intros u Hu Hn. rewrite Hh in Hu. apply str_eqb_eq in Hu. subst u.
+      exfalso. apply Hn. left. reflexivity.
+  Qed.
+
+  Lemma linv_path_level lvl np : linv lvl [] np -> forall path cur acc x,
+    path_value ps cur acc path = Some x -> sm_has np cur = true ->
+    sm_has np (last path cur) = true /\ (lvl (last path cur) <= lvl cur + length path)%nat.
+  Proof.
+    intros (_ & _ & _ & _ & _ & L4). induction path as [|n path IH]; intros cur acc x P Hc.
+    - cbn [last length]. split; [exact Hc | lia].
+    - cbn [path_value] in P. destruct (stored ps cur n) as [p|] eqn:S; [|discriminate].
+      rewrite last_cons.
+      destruct (L4 cur Hc (fun F => F) n ltac:(congruence)) as [Hn Hl].
+      destruct (IH n _ _ P Hn) as [H1 H2]. split; [exact H1|]. cbn [length]. lia.
+  Qed.
+
+  (* the chain whose product is the price is a shortest path of stored edges from v *)
+  Lemma normalize_shortest np c x :
+    normalize ps v = Some np -> sm_get np c = Some x ->
+    exists path, is_path ps v path c x /\ NoDup (v :: path) /\
+                 forall path' x', is_path ps v path' c x' -> (length path <= length path')%nat.
+  Proof.
+    intros H G. destruct (bfs_linv _ _ _ _ _ H linv_init) as [lvl Hl].
+    pose proof Hl as (_ & L0 & L1 & _).
+    destruct (L1 _ _ G) as (path & P1 & P2 & P3 & P4 & P5).
+    exists path. split; [split; assumption|]. split; [exact P3|].
+    intros path' x' [Q1 Q2].
+    assert (sm_has np v = true) as Hv by (apply P4; left; reflexivity).
+    destruct (linv_path_level lvl np Hl path' v one x' Q1 Hv) as [_ Hle].
+    rewrite Q2, L0 in Hle. lia.
+  Qed.
+End BfsLevels.
 
 (* ================================================================ the pinned depth-first code *)
 Definition sA : str := [65].
